@@ -182,7 +182,7 @@ PROPS['C16'] = {
     'targets': ['GridVerse.Props.C16', 'GridVerse.Props.C16State'],
     'theorem_files': [('GridVerse/Props/C16.lean', 'C16_'), ('GridVerse/Props/C16State.lean', 'C16_'), ('GridVerse/Props/C15.lean', 'C15_')] + AG('Objects'),
     'audit_prefix': 'C16_',
-    'families': {'quick': REPR_QUICK[:3], 'thorough': REPR_THOROUGH[:3]},
+    'families': {'quick': [(CORE, 'fam_equality', 1600, 16)] + REPR_QUICK[:3], 'thorough': [(CORE, 'fam_equality', 100000, 16)] + REPR_THOROUGH[:3]},
     'oracle_cases': {'quick': 4800, 'thorough': 200000},
     'trusted_base': ['float division (2p-n+1)/(n-1) is injective in p at grid sizes (the model compares exact fractions)'],
     'assumptions': ['equality is Python equality of grid objects (type, status, colour)'],
@@ -287,8 +287,8 @@ PROPS['C03'] = {
     'theorem_files': [('GridVerse/Props/C03.lean', 'C03_'), ('GridVerse/Props/C03Refine.lean', 'C03_')],
     'audit_prefix': 'C03_',
     'families': {
-        'quick': [(HEAPM, 'fam_heap_smallscope', 0, 16), (HEAPM, 'fam_heap_inplace', 6000, 16), (HEAPM, 'fam_heap_step', 3000, 16), (HEAPM, 'fam_heap_obs', 3000, 16), (HEAPM, 'fam_heap_copy', 1000, 16), (ENVM, 'fam_env_shipped', 84, 16), (CORE, 'fam_spath', 2000, 16), ('harness.corr_rays', 'fam_rays', 4, 16)],
-        'thorough': [(HEAPM, 'fam_heap_smallscope', 0, 16), (HEAPM, 'fam_heap_inplace', 300000, 16), (HEAPM, 'fam_heap_step', 150000, 16), (HEAPM, 'fam_heap_obs', 150000, 16), (HEAPM, 'fam_heap_copy', 50000, 16), (ENVM, 'fam_env_shipped', 21 * 100, 16), (CORE, 'fam_spath', 100000, 16), ('harness.corr_rays', 'fam_rays', 7, 16)],
+        'quick': [(CORE, 'fam_equality', 1600, 16), (HEAPM, 'fam_heap_smallscope', 0, 16), (HEAPM, 'fam_heap_inplace', 6000, 16), (HEAPM, 'fam_heap_step', 3000, 16), (HEAPM, 'fam_heap_obs', 3000, 16), (HEAPM, 'fam_heap_copy', 1000, 16), (ENVM, 'fam_env_shipped', 84, 16), (CORE, 'fam_spath', 2000, 16), ('harness.corr_rays', 'fam_rays', 4, 16)],
+        'thorough': [(CORE, 'fam_equality', 100000, 16), (HEAPM, 'fam_heap_smallscope', 0, 16), (HEAPM, 'fam_heap_inplace', 300000, 16), (HEAPM, 'fam_heap_step', 150000, 16), (HEAPM, 'fam_heap_obs', 150000, 16), (HEAPM, 'fam_heap_copy', 50000, 16), (ENVM, 'fam_env_shipped', 21 * 100, 16), (CORE, 'fam_spath', 100000, 16), ('harness.corr_rays', 'fam_rays', 7, 16)],
     },
     'oracle_cases': {'quick': 960, 'thorough': 40000},
     'trusted_base': [
